@@ -15,6 +15,7 @@ import (
 	banktypes "github.com/cosmos/cosmos-sdk/x/bank/types"
 	distrtypes "github.com/cosmos/cosmos-sdk/x/distribution/types"
 	govtypes "github.com/cosmos/cosmos-sdk/x/gov/types"
+	upgradetypes "github.com/cosmos/cosmos-sdk/x/upgrade/types"
 	govv1 "github.com/cosmos/cosmos-sdk/x/gov/types/v1"
 	govv1beta1 "github.com/cosmos/cosmos-sdk/x/gov/types/v1beta1"
 	paramproposal "github.com/cosmos/cosmos-sdk/x/params/types/proposal"
@@ -787,6 +788,11 @@ func init() {
 // otherwise swap one in and one out, keeping the count); 1: move the London
 // fork block (far future / back to 0); 2: as 1 but followed by a message that
 // fails, so the whole proposal is rolled back; 3: toggle create/call.
+// UpgradeNames: registered upgrade handlers that are safe to run on a state
+// created by the current binary (module migrations are no-ops there; the
+// handler-specific work re-applies parameters or re-computes tracking data).
+var UpgradeNames = []string{"v1.8.0", "v1.8.2", "v1.8.1", "v1.7.8", "v1.7.7"}
+
 func evmGovMsgs(w *e.World, kind, arg int64) []sdk.Msg {
 	ctx := w.Ctx()
 	auth := e.ModuleAddr(govtypes.ModuleName).String()
@@ -830,6 +836,27 @@ func evmGovMsgs(w *e.World, kind, arg int64) []sdk.Msg {
 		p.ChainConfig.MergeNetsplitBlock = &blk
 		p.ChainConfig.ShanghaiBlock = &blk
 		p.ChainConfig.CancunBlock = &blk
+	case 5:
+		// a software-upgrade plan for one of the handlers the binary registers; it is
+		// applied in BeginBlock of the plan height by every replica (in-process upgrade)
+		names := UpgradeNames
+		// (the SDK refuses to run a binary that already has the handler of a plan
+		// still in the future, so the plan height is the block right after the one in
+		// whose EndBlock the proposal passes; the step makes the voting period elapse)
+		name := names[int(arg)%len(names)]
+		if name == "v1.8.0" {
+			// a one-off main-net repair: it lowers the DAO's recorded aISLM total by 20 ISLM
+			// without moving coins. Only where the DAO ledger is not under test (C01,
+			// C20) and only when the DAO records at least that much.
+			if w.Cfg.Flags["allow_v180"] != 1 || w.App().DaoKeeper.GetTotalBalanceOf(ctx, e.Denom).Amount.BigInt().Cmp(e.BigS("20000000000000000000")) < 0 {
+				name = "v1.8.2"
+			}
+		}
+		plan := upgradetypes.Plan{Name: name, Height: w.Height + 2, Info: "sim"}
+		if done := w.App().UpgradeKeeper.GetDoneHeight(ctx, plan.Name); done > 0 {
+			return nil
+		}
+		return []sdk.Msg{&upgradetypes.MsgSoftwareUpgrade{Authority: auth, Plan: plan}}
 	case 4:
 		pairs := w.App().Erc20Keeper.GetTokenPairs(ctx)
 		if len(pairs) == 0 {
